@@ -19,10 +19,14 @@
 #include "TaskBasedRadiationHydrodynamicsSimulation.cpp"
 #include "verif_common.hpp"
 
+#include <algorithm>
 #include <array>
 #include <deque>
 #include <unordered_map>
 #include <unordered_set>
+
+// pair tasks whose two locks are not in ascending subgrid order (information only, see check_tables)
+static uint64_t g_lock_order_descending = 0;
 
 using namespace verif;
 
@@ -227,10 +231,14 @@ static uint64_t table_invariants(const Layout &L, World &W, Result &R) {
     std::set< int > ls(r.locks.begin(), r.locks.end()), ts(r.touched.begin(), r.touched.end());
     if (ls.size() != r.locks.size())
       V("lock-twice", fmt("task %d (type %d, subgrid %d) needs the lock of subgrid %d twice", t, r.type, r.subgrid, r.locks[0]));
-    if (ls != ts)
+    // every touched subgrid must be locked; locking more than is touched is harmless and not judged
+    if (!std::includes(ls.begin(), ls.end(), ts.begin(), ts.end()))
       V("lock-set", fmt("task %d (type %d, subgrid %d) touches %zu subgrids but locks %zu (first lock %d)", t, r.type, r.subgrid, ts.size(), ls.size(), r.locks.empty() ? -1 : r.locks[0]));
+    // NOT judged: the two locks of a pair task are taken with try_lock and rollback
+    // (Task::lock_dependency), so no acquisition order is needed for the property (no thread ever
+    // waits while holding a lock); the ascending order the code uses is recorded only
     if (r.locks.size() == 2 && !(r.locks[0] < r.locks[1]))
-      V("lock-order", fmt("task %d locks subgrid %d before subgrid %d", t, r.locks[0], r.locks[1]));
+      ++g_lock_order_descending;
     if (is_boundary(r.type) || is_neighbour(r.type)) {
       auto &cov = is_gradient(r.type) ? cov_g : cov_f;
       cov[std::make_pair(r.subgrid, r.face_dir)]++;
@@ -714,5 +722,6 @@ int main(int argc, char **argv) {
            "(thorough: up to 2x2x2); every model transition of the completely searched layouts replayed on the real Task "
            "objects; non-trivial = model states + layouts";
   R.assumptions.push_back("the model abstracts which queue a ready task sits in: any idle worker may take any ready, lockable task (superset of the implementation's choices)");
+  R.set("pair_tasks_with_descending_lock_order_informational", (double)g_lock_order_descending);
   return R.finish(A);
 }
